@@ -9,7 +9,7 @@ ID = 'C17'
 LEVEL = 'exploration'
 NEEDS = ('threads', 'proc')
 PROC_READY = True
-QUICK = dict(runs=10000, wall=85)
+QUICK = dict(runs=30000, wall=85)
 THOROUGH = dict(runs=600000, wall=1500)
 RULE = ('scenario = m in 1..3 suppliers x n in 1..3 consumers (threads on queue.Queue(maxsize in {0,1,3}) or SimpleQueue; simulated '
         'processes on multiprocessing.Queue in a share of runs), 1-3 rounds separated by renew (called by one consumer once all '
